@@ -281,6 +281,9 @@ fn rand_edits(ctx: &mut Ctx, allow_empty: bool) -> Vec<String> {
             1 => "xy".into(),
             2 => "\u{4e2d}".into(),
             3 => "a\u{e4}c".into(),
+            // strings whose number of code points differs from their number of grapheme clusters (a base letter
+            // with a mark that has no precomposed form): the two unit modes count them differently
+            5 if ctx.rng.random_range(0..2) == 0 => ["e\u{301}", "x\u{30c}y\u{30c}", "b\u{301}\u{302}"][ctx.rng.random_range(0..3)].into(),
             // a combining mark: in grapheme mode it fuses with the character before it (F16)
             4 if ctx.rng.random_range(0..4) == 0 => "\u{301}".into(),
             _ => CHARS[ctx.rng.random_range(0..CHARS.len())].into(),
